@@ -172,6 +172,13 @@ def _run(V, work, tier):
     for _ in range(300 if thorough else 60):
         t = P.src(mix.mix_program(rnd, depth=rnd.choice([3, 4])))
         progs_ += [t, gap_comments(t, rnd, rnd.choice([0.05, 0.15]))]
+    # threading forms (the heads with an ALIGN rule) written both ways - first argument on the head's line, first argument on
+    # a line of its own - in both orders, several per text: the layout of one form must not leak into the next
+    for head in ("thread-first", "thread-last"):
+        a = "(%s val\n  (f 1)\n  (g 2))\n" % head
+        b = "(%s\n  val\n  (f 1)\n  (g 2))\n" % head
+        c = "(defun k (v) (%s v ; c\n (list 1)\n (list 2)))\n" % head
+        progs_ += [a + b, b + a, a + b + a, b + c + a, c + b + c, a, b]
     files = []
     for f in ktrace.repo_lisp_files():
         try:
@@ -193,6 +200,8 @@ def _run(V, work, tier):
             if not f["ok"]:
                 V.add(None, "the formatter (%s) rejects an input the reader accepts" % mode, {"text": t[:2000]})
                 continue
+            if "shared_differs" in f:
+                V.add(None, "formatting (%s) depends on what the same Config value formatted before" % mode, {"text": t[:2000], "out": f.get("out", "")[:2000], "out_with_shared_config": f["shared_differs"][:2000]})
             if not f["idem"]:
                 # known finding, narrowly: the input spells out a prefix form ((lisp:expr ..), (lisp:function ..), (quote ..)) with
                 # a comment inside it, the first pass re-sugars or re-lays it, and the second pass differs ONLY by line breaks
